@@ -21,13 +21,16 @@ package main
 import (
 	"bytes"
 	"context"
+	"encoding/hex"
 	"encoding/json"
 	"errors"
 	"fmt"
+	"io"
 	"os"
 	"sort"
 	"strconv"
 	"strings"
+	"time"
 
 	"github.com/btcsuite/btcd/btcec/v2"
 	"github.com/btcsuite/btcd/btcec/v2/schnorr/musig2"
@@ -36,9 +39,12 @@ import (
 	"github.com/btcsuite/btcd/txscript"
 	"github.com/btcsuite/btcd/wire"
 	"github.com/lightninglabs/lndclient"
+	pool "github.com/lightninglabs/pool"
 	"github.com/lightninglabs/pool/account"
+	"github.com/lightninglabs/pool/auctioneer"
 	"github.com/lightninglabs/pool/auctioneerrpc"
 	"github.com/lightninglabs/pool/clientdb"
+	"github.com/lightninglabs/pool/funding"
 	"github.com/lightninglabs/pool/internal/test"
 	"github.com/lightninglabs/pool/order"
 	"github.com/lightninglabs/pool/poolscript"
@@ -48,6 +54,7 @@ import (
 	"github.com/lightningnetwork/lnd/lnrpc"
 	"github.com/lightningnetwork/lnd/lnrpc/signrpc"
 	"github.com/lightningnetwork/lnd/lnwallet/chainfee"
+	"google.golang.org/grpc"
 )
 
 func init() { props["C05"] = runC05 }
@@ -385,6 +392,85 @@ func (a *c05AcctStore) Account(k *btcec.PublicKey) (*account.Account, error) {
 type c05NonLinearFee struct{ *terms.LinearFeeSchedule }
 
 // ---------------------------------------------------------------------------
+// collaborators of rpcServer.handleServerMessage
+
+// c05Wallet is the mock wallet with a switchable DeriveKey failure (makes
+// fundingManager.BatchChannelSetup fail).
+type c05Wallet struct {
+	*test.MockWalletKit
+	fail bool
+}
+
+func (w *c05Wallet) DeriveKey(ctx context.Context, l *keychain.KeyLocator) (*keychain.KeyDescriptor, error) {
+	if w.fail {
+		return nil, errC05Injected
+	}
+	return w.MockWalletKit.DeriveKey(ctx, l)
+}
+
+// c05Base is the raw lnd client of the funding manager: every channel open
+// fails at once (the order pair is then partially rejected and the batch goes
+// on), nothing else is used on the Sign path.
+type c05Base struct{ funding.BaseClient }
+
+func (c05Base) OpenChannel(context.Context, *lnrpc.OpenChannelRequest,
+	...grpc.CallOption) (lnrpc.Lightning_OpenChannelClient, error) {
+
+	return nil, errors.New("peer offline")
+}
+
+// c05Stream records every message handed to the auctioneer.
+type c05Stream struct {
+	grpc.ClientStream
+	w        *c05World
+	failSign bool
+	signs    []*auctioneerrpc.OrderMatchSign
+	dbAtSend []string
+}
+
+func (s *c05Stream) Send(m *auctioneerrpc.ClientAuctionMessage) error {
+	switch x := m.Msg.(type) {
+	case *auctioneerrpc.ClientAuctionMessage_Sign:
+		s.w.trace = append(s.w.trace, fmt.Sprintf("send:%d", len(x.Sign.AccountSigs)))
+		s.signs = append(s.signs, x.Sign)
+		d, _ := s.w.dbTok()
+		s.dbAtSend = append(s.dbAtSend, d)
+		if s.failSign {
+			return errC05Injected
+		}
+	case *auctioneerrpc.ClientAuctionMessage_Reject:
+		s.w.trace = append(s.w.trace, "reject")
+	default:
+		s.w.trace = append(s.w.trace, "send:other")
+	}
+	return nil
+}
+
+func (s *c05Stream) Recv() (*auctioneerrpc.ServerAuctionMessage, error) { return nil, io.EOF }
+
+// c05RecMgr records the BatchSign calls of the handler.
+type c05RecMgr struct {
+	order.Manager
+	w      *c05World
+	sigs   order.BatchSignature
+	nonces order.AccountNonces
+	calls  int
+	okAt   int
+}
+
+func (m *c05RecMgr) BatchSign() (order.BatchSignature, order.AccountNonces, error) {
+	s, n, err := m.Manager.BatchSign()
+	m.calls++
+	if err != nil {
+		m.w.trace = append(m.w.trace, "sign:fail")
+	} else {
+		m.w.trace = append(m.w.trace, "sign:ok")
+		m.sigs, m.nonces = s, n
+	}
+	return s, n, err
+}
+
+// ---------------------------------------------------------------------------
 // interning of opaque values into small model tokens
 
 type c05Intern struct {
@@ -435,7 +521,11 @@ type c05World struct {
 	auct    *c05Signer
 	auctKey *btcec.PrivateKey
 	mgr     c05Mgr
-	wallet  *test.MockWalletKit
+	wallet  *c05Wallet
+	fm      *funding.Manager
+	stream  *c05Stream
+	rec     *c05RecMgr
+	handler *pool.VerifSignHandler
 	accts   []*c05Acct
 	nodes   [][33]byte
 	trace   []string
@@ -500,7 +590,7 @@ func newC05World(r *Run, c *c05Case) (*c05World, error) {
 	w.auct = newC05Signer(nil)
 	w.auctKey = c05Priv(0xa0, 0)
 	w.auct.add(0, w.auctKey)
-	w.wallet = test.NewMockWalletKit()
+	w.wallet = &c05Wallet{MockWalletKit: test.NewMockWalletKit()}
 	for i := 1; i <= 3; i++ {
 		w.nodes = append(w.nodes, c05Raw(c05Priv(0xd0, i).PubKey()))
 	}
@@ -575,7 +665,7 @@ func newC05World(r *Run, c *c05Case) (*c05World, error) {
 		ordToks = append(ordToks, fmt.Sprintf("%d:%d:%s:%s", a.id, a.id, allowed, notAllowed))
 	}
 
-	w.mgr = order.NewManager(&order.ManagerConfig{
+	realMgr := order.NewManager(&order.ManagerConfig{
 		Store:        w.store,
 		AcctStore:    w.astore,
 		Lightning:    test.NewMockLightning(),
@@ -583,11 +673,29 @@ func newC05World(r *Run, c *c05Case) (*c05World, error) {
 		Signer:       w.signer,
 		BatchVersion: order.LatestBatchVersion,
 	})
+	w.mgr = realMgr
 	if err := w.mgr.Start(); err != nil {
 		return nil, err
 	}
+	w.rec = &c05RecMgr{Manager: realMgr, w: w}
+	w.stream = &c05Stream{w: w}
+	w.wireHandler()
 	w.emit("C05 init accts="+strings.Join(acctToks, ",")+" orders="+strings.Join(ordToks, ","), "ok")
 	return w, nil
+}
+
+// wireHandler builds the real funding manager and an rpcServer around the
+// current database handle.
+func (w *c05World) wireHandler() {
+	w.fm = funding.NewManager(&funding.ManagerConfig{
+		DB:               w.db,
+		WalletKit:        w.wallet,
+		BaseClient:       c05Base{},
+		BatchStepTimeout: 2 * time.Second,
+	})
+	w.handler = pool.NewVerifSignHandler(
+		w.db, w.fm, w.rec, auctioneer.NewVerifSignClient(w.stream),
+	)
 }
 
 func (w *c05World) close() {
@@ -608,6 +716,7 @@ func (w *c05World) reopen() error {
 	w.db = db
 	w.store.db = db
 	w.astore.DB = db
+	w.wireHandler()
 	return nil
 }
 
@@ -965,7 +1074,10 @@ func (w *c05World) exec(c *c05Case) {
 			w.emit(line, res+w.tail())
 
 		case "sign":
-			w.execSign(c, kv, bad, &signOK, &stagedAfterOK)
+			w.execSign(c, kv, bad, &signOK, &stagedAfterOK, false)
+
+		case "hsign":
+			w.execSign(c, kv, bad, &signOK, &stagedAfterOK, true)
 
 		case "fin":
 			id, _ := strconv.Atoi(kv["id"])
@@ -1032,7 +1144,7 @@ func c05Recover(f func()) (p string) {
 }
 
 func (w *c05World) execSign(c *c05Case, kv map[string]string,
-	bad func(what, key string), signOK, stagedAfterOK *bool) {
+	bad func(what, key string), signOK, stagedAfterOK *bool, viaHandler bool) {
 
 	r := w.r
 	sf, af := -1, -1
@@ -1056,6 +1168,8 @@ func (w *c05World) execSign(c *c05Case, kv map[string]string,
 	// the Sign message to the pending batch.
 	pending := w.mgr.PendingBatch()
 	nonceTok, prevTok := "-", "-"
+	rpcSign := &auctioneerrpc.OrderMatchSignBegin{ServerNonces: map[string][]byte{}}
+	parseOK, chanOK, sendOK := kv["parse"] != "0", kv["chan"] != "0", kv["send"] != "0"
 	sessions := map[[33]byte]*c05AuctSession{}
 	if pending != nil {
 		nonces := order.AccountNonces{}
@@ -1093,8 +1207,19 @@ func (w *c05World) execSign(c *c05Case, kv map[string]string,
 		case "empty":
 			prev = nil
 		}
-		pending.ServerNonces = nonces
-		pending.PreviousOutputs = prev
+		if !viaHandler {
+			pending.ServerNonces = nonces
+			pending.PreviousOutputs = prev
+		}
+		for k, n := range nonces {
+			n := n
+			rpcSign.ServerNonces[hex.EncodeToString(k[:])] = n[:]
+		}
+		for _, o := range prev {
+			rpcSign.PrevOutputs = append(rpcSign.PrevOutputs, &auctioneerrpc.TxOut{
+				Value: uint64(o.Value), PkScript: o.PkScript,
+			})
+		}
 		if len(ntoks) > 0 {
 			nonceTok = strings.Join(ntoks, "+")
 		}
@@ -1118,7 +1243,32 @@ func (w *c05World) execSign(c *c05Case, kv map[string]string,
 		nonces order.AccountNonces
 		serr   error
 	)
-	pan := c05Recover(func() { sigs, nonces, serr = w.mgr.BatchSign() })
+	var pan string
+	if !viaHandler {
+		pan = c05Recover(func() { sigs, nonces, serr = w.mgr.BatchSign() })
+	} else {
+		if !parseOK {
+			// a nonce of the wrong length: order.ParseRPCSign fails
+			rpcSign.ServerNonces[hex.EncodeToString(make([]byte, 33))] = []byte{1, 2, 3}
+		}
+		w.wallet.fail = !chanOK
+		w.stream.failSign = !sendOK
+		w.stream.signs, w.stream.dbAtSend = nil, nil
+		callsBefore := w.rec.calls
+		w.rec.sigs, w.rec.nonces = nil, nil
+		pan = c05Recover(func() {
+			_ = w.handler.Handle(&auctioneerrpc.ServerAuctionMessage{
+				Msg: &auctioneerrpc.ServerAuctionMessage_Sign{Sign: rpcSign},
+			})
+		})
+		w.wallet.fail = false
+		w.stream.failSign = false
+		w.execHandlerTail(kv, pending, pan, callsBefore, nonceTok, prevTok, st, sf, af, bad, sessions, signOK, stagedAfterOK)
+		w.store.storeFault = "none"
+		w.store.acctFailAt = -1
+		w.signer.failAt = -1
+		return
+	}
 	// --- the moment of return ---
 	dbAfter, snap := w.dbTok()
 	trace := append([]string{}, w.trace...)
@@ -1237,6 +1387,123 @@ func (w *c05World) execSign(c *c05Case, kv map[string]string,
 	// (2) each signature validly spends the account's current output in
 	// exactly that transaction, and in no altered one
 	w.checkSigs(lb, sigs, nonces, sessions, bad)
+}
+
+// execHandlerTail emits the handler op and evaluates the property's statement
+// on the messages handed to the auctioneer.
+func (w *c05World) execHandlerTail(kv map[string]string, pending *order.Batch, pan string,
+	callsBefore int, nonceTok, prevTok, st string, sf, af int, bad func(what, key string),
+	sessions map[[33]byte]*c05AuctSession, signOK, stagedAfterOK *bool) {
+
+	r := w.r
+	var evs []string
+	for _, e := range w.trace {
+		if strings.HasPrefix(e, "sign:") || strings.HasPrefix(e, "send:") || e == "reject" {
+			evs = append(evs, e)
+		}
+	}
+	b2i := func(b bool) int {
+		if b {
+			return 1
+		}
+		return 0
+	}
+	sfTok, afTok := "-", "-"
+	if sf >= 0 {
+		sfTok = strconv.Itoa(sf)
+	}
+	if af >= 0 {
+		afTok = strconv.Itoa(af)
+	}
+	line := fmt.Sprintf("C05 hsign parse=%d chan=%d send=%d sf=%s af=%s st=%s nonces=%s prev=%s",
+		b2i(kv["parse"] != "0"), b2i(kv["chan"] != "0"), b2i(kv["send"] != "0"), sfTok, afTok, st, nonceTok, prevTok)
+	out := "ev=" + c05Csv(evs)
+	// signatures as handed to the auctioneer
+	var sent order.BatchSignature
+	var sentNonces order.AccountNonces
+	if len(w.stream.signs) > 0 {
+		m := w.stream.signs[len(w.stream.signs)-1]
+		sent, sentNonces = order.BatchSignature{}, order.AccountNonces{}
+		for k, v := range m.AccountSigs {
+			var raw [33]byte
+			b, _ := hex.DecodeString(k)
+			copy(raw[:], b)
+			sent[raw] = v
+		}
+		for k, v := range m.TraderNonces {
+			var raw [33]byte
+			b, _ := hex.DecodeString(k)
+			copy(raw[:], b)
+			var n poolscript.MuSig2Nonces
+			copy(n[:], v)
+			sentNonces[raw] = n
+		}
+		out += " " + w.sigTokens(w.mgr.PendingBatch(), sent)
+	}
+	p := 0
+	if pan != "" {
+		p = 1
+	}
+	out += fmt.Sprintf(" panicked=%d", p)
+	r.Count("hsign/" + map[bool]string{true: "sent-sign", false: "no-sign"}[len(w.stream.signs) > 0])
+	if pan != "" {
+		r.Count("hsign/panic")
+	}
+	for _, e := range evs {
+		r.Count("hsign/ev/" + strings.Split(e, ":")[0])
+	}
+	w.emit(line, out+w.tail())
+
+	// ---- oracle: "no sign message is handed to the auctioneer unless
+	// BatchSign returned ok before it", with the staged batch in the DB at
+	// the moment the message is handed over
+	signCalled := w.rec.calls > callsBefore
+	for i := range w.stream.signs {
+		okBefore := false
+		for _, e := range w.trace {
+			if e == "sign:ok" {
+				okBefore = true
+			}
+			if strings.HasPrefix(e, "send:") {
+				break
+			}
+		}
+		if !signCalled || !okBefore {
+			bad("a sign message was handed to the auctioneer without a preceding successful BatchSign (events "+c05Csv(evs)+")",
+				"C05/send-without-sign")
+			return
+		}
+		if w.lastOK == nil {
+			bad("a sign message was handed to the auctioneer although no verified batch is outstanding", "C05/no-verified-batch")
+			return
+		}
+		want := fmt.Sprintf("%d.%d", w.lastOK.ID[0], c05Tid(w, w.lastOK.BatchTX))
+		if w.stream.dbAtSend[i] != want {
+			bad("sign message handed to the auctioneer while the database does not hold the verified batch as staged (db="+
+				w.stream.dbAtSend[i]+", want "+want+")", "C05/not-staged-at-send")
+			return
+		}
+		if !bytes.Equal(w.stream.signs[i].BatchId, w.lastOK.ID[:]) {
+			bad("sign message names another batch than the verified one", "C05/send-wrong-batch")
+		}
+	}
+	if len(w.stream.signs) == 0 {
+		return
+	}
+	if len(sent) != len(w.rec.sigs) {
+		bad("sign message carries other signatures than BatchSign returned", "C05/send-other-sigs")
+	}
+	for k, v := range w.rec.sigs {
+		if !bytes.Equal(sent[k], v) {
+			bad("sign message carries other signatures than BatchSign returned", "C05/send-other-sigs")
+		}
+	}
+	*signOK = true
+	*stagedAfterOK = true
+	if len(sent) != len(w.lastOK.AccountDiffs) {
+		bad(fmt.Sprintf("sent %d signatures for a batch with %d account diffs", len(sent), len(w.lastOK.AccountDiffs)), "C05/sig-set")
+	}
+	w.checkSigs(w.lastOK, sent, sentNonces, sessions, bad)
 }
 
 // sigTokens renders the released signatures as the messages they are over:
@@ -1570,6 +1837,21 @@ func c05Gen(r *Run) *c05Case {
 				prev = "short"
 			case 1:
 				prev = "empty"
+			}
+			if r.Rng.Intn(4) == 0 {
+				// through the real handleServerMessage
+				parse, ch, send := 1, 1, 1
+				switch r.Rng.Intn(10) {
+				case 0:
+					parse = 0
+				case 1:
+					ch = 0
+				case 2:
+					send = 0
+				}
+				c.Cmds = append(c.Cmds, fmt.Sprintf("hsign parse=%d chan=%d send=%d sf=%s af=%s st=%s dropnonce=%d prev=%s",
+					parse, ch, send, sf, af, st, drop, prev))
+				continue
 			}
 			c.Cmds = append(c.Cmds, fmt.Sprintf("sign sf=%s af=%s st=%s dropnonce=%d prev=%s reopen=%d",
 				sf, af, st, drop, prev, r.Rng.Intn(4)/3))
